@@ -26,7 +26,8 @@ EXHAUSTIVE = {"quick": [], "thorough": []}
 RAW_OPS = {"array", "shape", "dtype", "rank", "free_indices", "tensor_shape", "dim", "T", "transpose", "copy", "__copy__", "expand_dims", "size", "__len__", "__repr__",
            "__getitem__", "__iter__", "tensor_product", "__array__", "from_tensor", "from_array", "is_zero", "pdim", "is_dual", "__neg__", "__rmul__", "__radd__", "__rsub__",
            "__truediv__", "__pow__", "lie_coordinates", "_edges", "covariant_tensor", "contravariant_tensor", "__apply__"}
-ALGEBRAIC = {"join", "meet", "__eq__", "crossratio", "contains", "is_coplanar", "is_collinear", "is_concurrent"}
+# complex scale factors only for the purely algebraic operations named by the property
+ALGEBRAIC = {"join", "meet", "__eq__", "crossratio"}
 ANGLE_OPS = {"angle", "angles", "intersection_angle"}
 BASIS_OPS = {"basis_matrix"}
 ARBITRARY_OPS = {"base_point", "general_point"}
@@ -450,6 +451,10 @@ def g_eq_lattice(ctx, rng, i):
         g.Quadric(q) == g.Quadric(q * lam)
         g.Quadric(q) == g.Quadric(q + np.diag(np.arange(1, len(u) + 1)))
 
+
+_tolerant = core.tolerant
+
+g_catalogue, g_eq_lattice = _tolerant(g_catalogue), _tolerant(g_eq_lattice)
 
 GROUPS = [
     {"name": "catalogue", "fn": g_catalogue, "quick": 48, "thorough": 480},
